@@ -1132,6 +1132,36 @@ func fixedCases(t *testing.T, out *vh.Out, rng *vh.Rand) {
 	rc.caps = []string{"deny"}
 	rc.allowed = pmap{present: true, keys: []string{"k", "K"}, vals: [][]val{{sv("a")}, {sv("b")}}}
 	e.reparse("c3", []srcRule{rc})
+	// policy objects are SHARED between ACLs (the policy store caches them): three stanzas for one path — the first without
+	// allowed/denied parameters, the second and third with — attached together once; an ACL built afterwards from the
+	// second policy alone must still decide by that policy's own parameters (seeded change C03-5: the first merged
+	// parameter map aliased to the cached policy)
+	for _, kind := range []string{"allowed", "denied"} {
+		e = newEnv(t, out, rng)
+		r1 := simpleRule("x", "update")
+		r2 := simpleRule("x", "update")
+		r3 := simpleRule("x", "update")
+		if kind == "allowed" {
+			r2.allowed = pmap{present: true, keys: []string{"a"}, vals: [][]val{{}}}
+			r3.allowed = pmap{present: true, keys: []string{"b"}, vals: [][]val{{}}}
+		} else {
+			r2.denied = pmap{present: true, keys: []string{"a"}, vals: [][]val{{}}}
+			r3.denied = pmap{present: true, keys: []string{"b"}, vals: [][]val{{}}}
+		}
+		e.addPolicy("p1", []srcRule{r1})
+		e.addPolicy("p2", []srcRule{r2})
+		e.addPolicy("p3", []srcRule{r3})
+		if e.attach(0, true, []int{0, 1, 2}) {
+			e.allow(0, false, request{path: "x", op: "update", keys: []string{"b"}, vals: []val{sv("v")}}, "")
+		}
+		if e.attach(1, true, []int{1}) {
+			e.allow(1, false, request{path: "x", op: "update", keys: []string{"a"}, vals: []val{sv("v")}}, "")
+			e.allow(1, false, request{path: "x", op: "update", keys: []string{"b"}, vals: []val{sv("v")}}, "")
+		}
+		if e.attach(2, true, []int{0, 1}) {
+			e.allow(2, false, request{path: "x", op: "update", keys: []string{"b"}, vals: []val{sv("v")}}, "")
+		}
+	}
 	// witness: Capabilities on a path with a trailing slash reports the list-fallback rule
 	e = newEnv(t, out, rng)
 	e.addPolicy("q", []srcRule{simpleRule("foo", "deny"), simpleRule("foo/*", "read")})
